@@ -10,6 +10,8 @@ IdPoolSmall == {NoId, 0}
 FreshPoolDef == {1, 3}
 AutoNamesDef == {"auto1", "auto2"}
 DefValsDef == {-1, 5, 15}
+DefValsSmall == {-1, 5}
 StepPoolDef == {"s", "zz"}
+MaxHDef == atoi(EnvOr("VERIF_MAXH", "4"))
 ASSUME WellFormed(LngDef)
 =============================================================================
